@@ -67,6 +67,23 @@ def li_render(rng, items):
     return lines
 
 
+def data_items(rng):
+    """data of even size between the instructions: what follows must know exactly how large it is"""
+    c = rng.randrange(6)
+    if c == 0:
+        d = rng.choice(['shorts', 'ints', 'longs', 'longs', 'longlongs'])
+        return [{'k': 'seq', 'd': d, 'vals': [rng.randrange(0, 1 << 15) for _ in range(rng.randint(1, 3))]}]
+    if c == 1:
+        return [{'k': 'seq', 'd': 'bytes', 'vals': [rng.randrange(0, 256) for _ in range(2 * rng.randint(1, 3))]}]
+    if c == 2:
+        return [{'k': 'packn', 'fmt': rng.choice(['L', 'Q', 'H', 'I']), 'val': rng.randrange(0, 1 << 15)}]
+    if c == 3:
+        return [{'k': 'data', 'd': rng.choice(['dh', 'dw', 'dd']), 'val': {'i': rng.randrange(0, 1 << 15)}}]
+    if c == 4:
+        return [{'k': 'string', 'text': rng.choice(['\u00e9', 'ab\u20acx', 'okay', 'q\u4e2dz '])}]
+    return [{'k': 'seq', 'd': 'bytes', 'vals': [rng.randrange(0, 256) for _ in range(rng.choice([1, 3]))]}, {'k': 'align', 'n': 2}]
+
+
 def misc_program(rng, far=False):
     """all non-li pseudos with varied registers; labels before, between and after"""
     items = [{'k': 'label', 'name': 'A'}, {'k': 'pseudo', 'm': 'nop', 'ops': []}]
@@ -112,8 +129,11 @@ def misc_program(rng, far=False):
         clash.append({'k': 'const', 'name': name, 'value': v, 'text': str(v)})
         body.append({'k': 'pseudo', 'm': 'li', 'ops': [R(), {'c': name}]})
         body.append({'k': 'label', 'name': name})
+    if rng.random() < 0.5:
+        for _ in range(rng.randint(1, 4)):
+            body.append(data_items(rng))
     rng.shuffle(body)
-    body = clash + body
+    body = clash + [x for b in body for x in (b if isinstance(b, list) else [b])]
     half = len(body) // 2
     items += body[:half] + [{'k': 'label', 'name': 'B'}] + body[half:] + [{'k': 'label', 'name': 'C'}, {'k': 'pseudo', 'm': 'ret', 'ops': []}]
     if far:
@@ -153,6 +173,14 @@ def named_location_program(rng, compress):
     if rng.random() < 0.3:
         # the distance to an absolute address as a value: li of %offset(constant), small and large, next to the 12-bit edges
         T2 = pos + rng.choice([0, 4, 100, 2046, 2047, 2048, 2052, 4096, 0x5678, 0x7ff, 0x800, 0x12345678, 0x7ffff7fc, 0x1f000, 0x20000])
+        if rng.random() < 0.4:
+            # data and an `align` in front: the passes first see the align at its full size, later at its real padding, and the
+            # distance is placed so that its low 12 bits are around 0 (or an RVC immediate edge) as seen from the *first* position
+            k2 = rng.choice([1, 2, 3])
+            a = rng.choice([4, 8, 16])
+            items[1:1] = [{'k': 'seq', 'd': 'shorts', 'vals': [0x1234] * k2}, {'k': 'align', 'n': a}]
+            first = 2 * k2 + a + n * 4
+            T2 = first + rng.choice([0, 0x1000, 0x20000000]) + rng.choice([0, 0, 0, 2, 4, -2, 30, 32, 34, -32, -34, 2046, 2048])
         items[0] = {'k': 'const', 'name': 'TLOC', 'value': T2, 'text': rng.choice([str, hex])(T2)}
         items.append({'k': 'pseudo', 'm': 'li', 'ops': [{'r': rng.choice(REGS[1:])}, rng.choice([{'off': 'TLOC'}, {'off': 'TLOC'}, {'hi': {'off': 'TLOC'}}, {'lo': {'off': 'TLOC'}}])]})
         items.append({'k': 'pseudo', 'm': 'ret', 'ops': []})
@@ -188,7 +216,7 @@ def drift_program(rng, base):
         elif c == 3:
             items.append({'k': 'inst', 'm': 'addi', 'ops': [{'r': 8}, {'r': 8}, {'i': 1}]})
         elif c == 4:
-            items += [{'k': 'gap', 'n': rng.choice([1, 2, 3, 5])}, {'k': 'align', 'n': 2}]
+            items += [{'k': 'gap', 'n': rng.choice([1, 2, 3, 5])}, {'k': 'align', 'n': 2}] if rng.random() < 0.5 else data_items(rng)
         else:
             items.append({'k': 'pseudo', 'm': 'mv', 'ops': [R(), R()]})
     items += [{'k': 'align', 'n': 2}, {'k': 'label', 'name': 'T'}, {'k': 'pseudo', 'm': 'ret', 'ops': []}]
